@@ -811,6 +811,71 @@ class BaseInterpreter(Generic[TContext, TEvent]):
                 return produced
         return None
 
+    @staticmethod
+    def _validate_snapshot_shape(
+        snapshot: Dict[str, Any], machine: MachineNode[Any, Any]
+    ) -> None:
+        """Rejects a decoded snapshot whose fields have the wrong shape.
+
+        Args:
+            snapshot (Dict[str, Any]): The decoded snapshot object.
+            machine (MachineNode): The machine the snapshot is restored into.
+
+        Raises:
+            InvalidConfigError: If a field is missing or has the wrong type.
+            StateNotFoundError: If a state id does not exist in `machine`.
+        """
+        status = snapshot.get("status")
+        if status not in (
+            "uninitialized",
+            "running",
+            "done",
+            "error",
+            "stopped",
+        ):
+            raise InvalidConfigError(
+                f"Snapshot has an invalid 'status': {status!r}."
+            )
+        if not isinstance(snapshot.get("context"), dict):
+            raise InvalidConfigError(
+                "Snapshot 'context' must be a JSON object, got "
+                f"{type(snapshot.get('context')).__name__}."
+            )
+        if "configuration" not in snapshot and "state_ids" not in snapshot:
+            raise InvalidConfigError(
+                "Snapshot has neither 'configuration' nor 'state_ids'."
+            )
+        for key in ("configuration", "state_ids"):
+            if key not in snapshot or (
+                key == "configuration" and snapshot[key] is None
+            ):
+                continue
+            ids = snapshot[key]
+            if not isinstance(ids, list) or not all(
+                isinstance(i, str) for i in ids
+            ):
+                raise InvalidConfigError(
+                    f"Snapshot '{key}' must be a list of state ids."
+                )
+            for state_id in ids:
+                if machine.get_state_by_id(state_id) is None:
+                    raise StateNotFoundError(target=state_id)
+        for key in ("history", "actors", "system"):
+            value = snapshot.get(key)
+            if value is not None and not isinstance(value, dict):
+                raise InvalidConfigError(
+                    f"Snapshot '{key}' must be a JSON object, got "
+                    f"{type(value).__name__}."
+                )
+        for parent_id, node_ids in (snapshot.get("history") or {}).items():
+            if not isinstance(node_ids, list) or not all(
+                isinstance(i, str) for i in node_ids
+            ):
+                raise InvalidConfigError(
+                    f"Snapshot history of '{parent_id}' must be a list of "
+                    "state ids."
+                )
+
     @classmethod
     def from_snapshot(
         cls: Type["BaseInterpreter[Any, Any]"],
@@ -866,6 +931,14 @@ class BaseInterpreter(Generic[TContext, TEvent]):
                 f"Snapshot must decode to a JSON object, got "
                 f"{type(snapshot).__name__}."
             )
+
+        # 🧯 Validate the shape before touching anything. A snapshot comes
+        #    back from storage, so a damaged one is an ordinary runtime
+        #    condition: it must surface as a library error, not as a raw
+        #    KeyError/TypeError/AttributeError from deep inside the restore -
+        #    and never be "restored" into an interpreter whose status or
+        #    context is garbage.
+        cls._validate_snapshot_shape(snapshot, machine)
 
         # 🧪 Create a new instance of the correct interpreter class (sync/async)
         interpreter = cls(machine)
